@@ -1,4 +1,5 @@
 import WhVerif.Lemmas.C10Swap
+import WhVerif.Lemmas.C10Regions
 /-!
 # C10 — haplotag conserves every alignment and tags it with the best-agreeing haplotype
 
@@ -293,5 +294,61 @@ example :
     let c : Chrom Nat := ⟨⟨[], [], 0, false, false⟩, [a]⟩
     (runRegionsOrig [(c, [(0, some 50), (100, some 150)])]).length = 2 ∧
     (runRegions [(c, [(0, some 50), (100, some 150)])]).length = 1 := by decide
+
+/-- **conservation_regions_order.**  `--regions` after the repair F17 (`Model/C10Regions.lean`:
+`normalizeSel` = `normalize_user_regions`, `runRegionsSkip` = the write loop with `previous_end`), for ANY
+list of requested regions — unsorted, overlapping, duplicated, open-ended, several per contig, contigs in any
+order: the written alignments are exactly the sub-list of the input stream (`stream chroms`: the placed
+alignments, contig after contig in header order) of those alignments whose reference span meets at least one
+requested region of their contig — same order, each exactly once, every field but HP/PC/PS unchanged.
+The abstract loop `runRegions` of `Model/C10.lean` (written with the first region overlapped) gives the same list.
+
+Assumptions on the input: the BAM is coordinate-sorted (`CoordinateSorted`: within a contig `reference_start`
+never decreases; contigs in header order is how `Chrom` lists are read) and no region is inverted
+(`ValidRegions`: `start ≤ end`; `Region.parse` rejects `end <= start`). -/
+theorem conservation_regions_order {α} (chroms : List (Chrom α)) (user : List (Nat × Region))
+    (hsorted : CoordinateSorted chroms) (hvalid : ValidRegions user) :
+    (runRegionsSkip (normalizeSel chroms user)).map Aln.erase
+      = ((stream chroms).filter (requestedAln user)).map (fun ia => ia.2.erase)
+    ∧ runRegions (normalizeSel chroms user) = runRegionsSkip (normalizeSel chroms user) := by
+  have hl : ∀ ci ∈ chroms.zipIdx, ci.1.alns.Pairwise fun a b => a.refStart ≤ b.refStart :=
+    fun ci hci => hsorted ci.1 (fst_mem_of_mem_zipIdx hci)
+  have hskip : runRegionsSkip (normalizeSel chroms user) = _ :=
+    (flatMap_normalizeSel (fun alns rs => fetchSkip alns none rs) (fun _ => rfl) user chroms.zipIdx).trans
+      (flatMap_contigs_eq _ user hvalid (fun _ hs rq hv => fetchSkip_normalizeRegions hs rq hv) _ hl)
+  have honce : runRegions (normalizeSel chroms user) = _ :=
+    (flatMap_normalizeSel (fun alns rs => fetchOnce alns [] rs) (fun _ => rfl) user chroms.zipIdx).trans
+      (flatMap_contigs_eq _ user hvalid (fun _ hs rq hv => fetchOnce_normalizeRegions hs rq hv) _ hl)
+  refine ⟨?_, honce.trans hskip.symm⟩
+  rw [hskip]
+  exact erase_flatMap_eq_stream user chroms.zipIdx
+
+/-- the written list is a sub-list of the whole input (what `run` reads), tags erased -/
+theorem conservation_regions_sublist {α} (chroms : List (Chrom α)) (user : List (Nat × Region))
+    (hsorted : CoordinateSorted chroms) (hvalid : ValidRegions user) :
+    ((runRegionsSkip (normalizeSel chroms user)).map Aln.erase).Sublist ((run chroms []).map Aln.erase) := by
+  rw [(conservation_regions_order chroms user hsorted hvalid).1]
+  rw [erase_run_eq_stream]
+  exact (List.filter_sublist).map _
+
+/-- non-vacuity: two overlapping regions given in the wrong order (`chr1:151-320`, `chr1:1-220`), a duplicate
+of the first, and an open-ended region on the first contig although it is named last; `b` spans both regions
+of contig 1 and is written once, in input order; `c` lies outside -/
+example :
+    let mk (n : String) (s e : Int) : Aln Nat := ⟨0, n, false, false, false, s, e, none, {}⟩
+    let c0 : Chrom Nat := ⟨⟨[], [], 0, false, false⟩, [mk "x" 5 40, mk "y" 500 600]⟩
+    let c1 : Chrom Nat := ⟨⟨[], [], 0, false, false⟩, [mk "a" 10 100, mk "b" 100 250, mk "d" 300 310, mk "c" 330 400]⟩
+    let user : List (Nat × Region) := [(1, (150, some 320)), (1, (0, some 220)), (1, (150, some 320)), (0, (450, none))]
+    CoordinateSorted [c0, c1] ∧ ValidRegions user ∧
+    (normalizeSel [c0, c1] user).map (·.2) = [[(450, none)], [(0, some 320)]] ∧
+    (runRegionsSkip (normalizeSel [c0, c1] user)).map (·.name) = ["y", "a", "b", "d"] ∧
+    (runRegionsOrig [(c1, [(150, some 320), (0, some 220)])]).map (·.name) = ["b", "d", "a", "b"] := by
+  refine ⟨?_, ?_, by decide, by decide, by decide⟩
+  · intro c hc
+    simp only [List.mem_cons, List.mem_nil_iff, or_false] at hc
+    rcases hc with rfl | rfl <;> decide
+  · intro u hu
+    simp only [List.mem_cons, List.mem_nil_iff, or_false] at hu
+    rcases hu with rfl | rfl | rfl | rfl <;> intro e he <;> cases he <;> decide
 
 end WhVerif.Props.C10
